@@ -31,34 +31,34 @@ func (c *Clause) Expr() (*SExpr, error) {
 }
 
 type LoopSpec struct {
-	Ordinal    int
-	Invariants []*Clause
+	Ordinal     int
+	Invariants  []*Clause
 	Transitions []*Clause // two-state: prev(e) is e at the start of the iteration; checked at every back edge
-	Decreases  *Clause
-	Modifies   []*Clause
-	Line       int
+	Decreases   *Clause
+	Modifies    []*Clause
+	Line        int
 }
 
 type Contract struct {
-	Key      string // function key relative to PkgPath, or absolute (prelude)
-	PkgPath  string
-	Props    []string
-	Requires []*Clause
-	Ensures  []*Clause
-	Modifies []*Clause
-	Covers   []*Clause
-	GhostSets []*Clause // "gf(o, name, T) := expr": ghost assignment performed at every return
-	Guards   map[string]*Clause // "name#n" -> condition that must hold when the n-th call through value `name` happens
-	Loops    map[int]*LoopSpec
-	Pure     bool
-	Swept    bool // instance of a sweep template
-	Trusted  bool
-	MayPanic bool // explicit panic() calls are part of the contract, not obligations
-	NoVerify bool // contract only used at call sites (body not translated)
-	Opts     map[string]string
-	File     string
-	Line     int
-	used     int
+	Key       string // function key relative to PkgPath, or absolute (prelude)
+	PkgPath   string
+	Props     []string
+	Requires  []*Clause
+	Ensures   []*Clause
+	Modifies  []*Clause
+	Covers    []*Clause
+	GhostSets []*Clause          // "gf(o, name, T) := expr": ghost assignment performed at every return
+	Guards    map[string]*Clause // "name#n" -> condition that must hold when the n-th call through value `name` happens
+	Loops     map[int]*LoopSpec
+	Pure      bool
+	Swept     bool // instance of a sweep template
+	Trusted   bool
+	MayPanic  bool // explicit panic() calls are part of the contract, not obligations
+	NoVerify  bool // contract only used at call sites (body not translated)
+	Opts      map[string]string
+	File      string
+	Line      int
+	used      int
 }
 
 type SpecParam struct{ Name, Type string }
@@ -92,15 +92,15 @@ type GhostField struct {
 }
 
 type ContractSet struct {
-	Ghosts   []GhostField
-	Funcs    map[string]*Contract // full key -> contract
-	Specs    map[string]*SpecFunc // pkgpath + "." + name, and bare name for prelude
-	Lemmas   []*Lemma
-	TypeInvs []*TypeInv
-	Files    []string
+	Ghosts       []GhostField
+	Funcs        map[string]*Contract // full key -> contract
+	Specs        map[string]*SpecFunc // pkgpath + "." + name, and bare name for prelude
+	Lemmas       []*Lemma
+	TypeInvs     []*TypeInv
+	Files        []string
 	ConstGlobals map[string][]string // package path -> declared constant package variables
-	Sweeps   []*Sweep
-	TablePos map[string]string // full key of a table-entry contract -> file:line:col of its function literal
+	Sweeps       []*Sweep
+	TablePos     map[string]string // full key of a table-entry contract -> file:line:col of its function literal
 }
 
 // Sweep: an empty contract (safety obligations only: nil, bounds, division, conversions, explicit
